@@ -79,7 +79,9 @@ func (s *Modifier) ModifyRequest(req *http.Request) error {
 // will be a 404. ModifyResponse will return a 404 for any path that is defined in s.explictPaths
 // and that does not exist locally, even if that file does exist in s.rootPath.
 func (s *Modifier) ModifyResponse(res *http.Response) error {
-	reqpth := filepath.Clean(res.Request.URL.Path)
+	// Root the request path before cleaning it: Clean keeps the leading ".."
+	// elements of a relative path, which would then climb out of rootPath.
+	reqpth := filepath.Clean("/" + res.Request.URL.Path)
 	fpth := filepath.Join(s.rootPath, reqpth)
 
 	if _, ok := s.explicitPaths[reqpth]; ok {
